@@ -20,6 +20,7 @@ ID = "C10"
 CORR_MODULE = "Corr.C10"
 LEVEL = "exploration"
 SHARD = 60
+SEARCH_CAP = 300
 
 
 def snap(o):
